@@ -9,7 +9,7 @@ from . import common as C
 
 FAMILY = "bridge:c18"
 SHARDS = 12
-N_QUICK = 2400
+N_QUICK = 7200
 N_THOROUGH = 60000
 
 TRUSTED = [
@@ -105,6 +105,9 @@ NULL = "6e756c6c"
 def monitors(sc):
     """The decidable part of C18 on an OBSERVED scenario; returns None or (name, sentence)."""
     cfg, reqs, outs, ans, faults = parse_scenario(sc)
+    for n, a in ans.items():
+        if a["status"] == "hang":
+            return ("answered", "request %s never completed although every handler was released" % n)
     if faults:
         return ("harness_fault", faults[0])
     tok_owner = {}
